@@ -544,3 +544,27 @@ def hashmap_idioms(L, tab):
                 m.entry = 0
                 progs.append(("hashmap[%d,%d,%s].%s" % (kt, vt, vk, un), m.build(L)))
     return progs
+
+
+def big_frame_modules(L, tab):
+    """one frame whose operand stack grows past the VM's initial 4096 slots (the stack is reallocated), then stores to and loads
+    from its locals: values written before and after the growth are the values read back"""
+    names = {nm: op for op, (nm, ops) in tab.items()}
+    E = lambda nm, *vals: nvm.encode_instr(names[nm], [v & ((1 << 64) - 1) for v in vals], tab)
+    out = []
+    for n in (4090, 4097, 5000, 9000):
+        for kind in ("ints", "strings"):
+            m = nvm.Mod()
+            m.strings = [b"main", b"shared-", b"!"]
+            pre = E("PUSH_STR", 1) + E("PUSH_I64", 7) + E("CAST_STRING") + E("STR_CONCAT") + E("STORE_LOCAL", 0)      # local 0: a fresh string
+            push = b"".join((E("PUSH_I64", i) if kind == "ints" else E("LOAD_LOCAL", 0)) for i in range(n))
+            body = (pre + push + E("ARR_LITERAL", 1 if kind == "ints" else 5, n) + E("STORE_LOCAL", 1)
+                    + E("LOAD_LOCAL", 0) + E("PUSH_STR", 2) + E("STR_CONCAT") + E("STORE_LOCAL", 0)                      # store to a local right after the growth
+                    + E("LOAD_LOCAL", 0) + E("PRINTLN") + E("LOAD_LOCAL", 1) + E("ARR_LEN") + E("PRINTLN")
+                    + E("LOAD_LOCAL", 1) + E("PUSH_I64", n - 1) + E("ARR_GET") + E("PRINTLN")
+                    + E("PUSH_VOID") + E("STORE_LOCAL", 1) + E("LOAD_LOCAL", 0) + E("PRINTLN") + E("PUSH_I64", 0) + E("RET"))
+            m.code = body
+            m.functions = [[0, 0, 0, len(body), 2, 0]]
+            m.entry = 0
+            out.append(("big-frame-%s-%d" % (kind, n), m.build(L)))
+    return out
